@@ -304,7 +304,7 @@ fn run(ctx: &Ctx, roundtrip: bool) {
         };
         let step = if lite { 64 } else { 16 };
         let tiny: Vec<f32> = (0..total).step_by(step).map(|i| inputs.get(i)).collect();
-        for (ti, t) in TRANSFERS.iter().copied().enumerate() {
+        for (_ti, t) in TRANSFERS.iter().copied().enumerate() {
             if only_t.is_some_and(|o| o != t) {
                 continue;
             }
@@ -320,7 +320,7 @@ fn run(ctx: &Ctx, roundtrip: bool) {
                 while stream.len() % 3 != 0 {
                     stream.push(0.25);
                 }
-                let mut check_image = |img: Vec<[f32; 3]>, what: &str| {
+                let check_image = |img: Vec<[f32; 3]>, what: &str| {
                     let n = img.len();
                     let (res, want_rt): (Result<Vec<[f32; 3]>, String>, bool) = if roundtrip { (f(img.clone()).and_then(|l| gam_of(t, l)), true) } else { (f(img.clone()), false) };
                     let Ok(out) = res else { return };
@@ -351,6 +351,50 @@ fn run(ctx: &Ctx, roundtrip: bool) {
                 };
                 extra_evals += stream.len() as u64;
                 check_image(stream.chunks(3).map(|c| [c[0], c[1], c[2]]).collect(), "chained-components");
+                // in-domain components that share their pixel (and their neighbourhood) with out-of-domain ones
+                {
+                    let hostile = [1.125f32, -0.25, f32::NAN, f32::INFINITY, 5.0, -0.0, f32::NEG_INFINITY, 1.0000001, -1e-30];
+                    let img: Vec<[f32; 3]> = base
+                        .iter()
+                        .enumerate()
+                        .map(|(i, a)| {
+                            let hv = hostile[i % hostile.len()];
+                            match i % 4 {
+                                0 => [*a, hv, *a],
+                                1 => [hv, *a, hv],
+                                2 => [*a, *a, hv],
+                                _ => [hv, hv, *a],
+                            }
+                        })
+                        .collect();
+                    extra_evals += img.len() as u64 * 3;
+                    check_image(img, "hostile-companions");
+                }
+                // letterboxed: 16-pixel rows, whole rows of black above and between the rows of subjects, none below
+                {
+                    let img: Vec<[f32; 3]> = base.iter().map(|a| [*a, 1.0 - *a, *a]).collect();
+                    let (v, _, _) = letterbox(&img, 16, [0.0; 3]);
+                    extra_evals += v.len() as u64 * 3;
+                    check_image(v, "letterboxed");
+                }
+                // everything as ONE image of more than 2^20 pixels, with exact 0.0 / 1.0 sprinkled through it
+                if !lite {
+                    let mut big: Vec<f32> = (0..total).step_by(if matches!(inputs, Inputs::All) { 251 } else { 1 }).map(|i| inputs.get(i)).collect();
+                    while big.len() < 3 * ((1 << 20) + 7) {
+                        let l = big.len();
+                        big.extend_from_within(..l.min(3 * ((1 << 20) + 7) - l));
+                    }
+                    for (k, v) in big.iter_mut().enumerate() {
+                        if k % 997 == 500 {
+                            *v = if (k / 997) % 2 == 0 { 0.0 } else { 1.0 };
+                        }
+                    }
+                    while big.len() % 3 != 0 {
+                        big.push(0.5);
+                    }
+                    extra_evals += big.len() as u64;
+                    check_image(big.chunks(3).map(|c| [c[0], c[1], c[2]]).collect(), "one-big-image");
+                }
                 // tiny images
                 for img in tiny.chunks(15) {
                     if img.len() == 15 {
